@@ -129,7 +129,7 @@ class BaseClientDataStore(ABC):
         serialized = self.app.serializer.serialize(obj)
         key = self._maybe_store(serialized)
         if self.is_reference(key):
-            self._cache_deserialized(key, obj)
+            self._cache_deserialized(key, serialized)
         return key
 
     def resolve(self, data: str) -> Any:
@@ -198,15 +198,18 @@ class BaseClientDataStore(ABC):
         Resolve a reference key to the deserialized object.
 
         Uses a small process-local LRU cache to avoid repeated backend reads
-        for the same key within a single process.
+        for the same key within a single process. The cache holds the
+        serialized text, never the live object: every caller gets its own
+        freshly deserialized value, so an in-place mutation by one holder
+        cannot change what the reference resolves to.
         """
         if ref_key in self._deserialized_cache:
             self._deserialized_cache.move_to_end(ref_key)
-            return self._deserialized_cache[ref_key]
-        serialized = self._retrieve(ref_key)
-        obj = self.app.serializer.deserialize(serialized)
-        self._cache_deserialized(ref_key, obj)
-        return obj
+            serialized = self._deserialized_cache[ref_key]
+        else:
+            serialized = self._retrieve(ref_key)
+            self._cache_deserialized(ref_key, serialized)
+        return self.app.serializer.deserialize(serialized)
 
     def _cache_deserialized(self, key: str, obj: Any) -> None:
         """Add to LRU cache, evicting oldest if at capacity."""
